@@ -266,7 +266,8 @@ def Imp.typedPart (imp : Imp) (ch : Transforms.Chunk) : Except Err Imp :=
     | .error e => .error e
     | .ok m => .ok { imp with data := imp.data ++ m }
   | .categorical cats =>
-    match Transforms.categoricalTransform (Transforms.getByteMap cats) ch with
+    -- fix NC06d: raises `ValueError` when a row of the chunk equals no category key; nothing is written then
+    match Transforms.categoricalImportPart (Transforms.getByteMap cats) ch with
     | .error e => .error e
     | .ok chunk => .ok { imp with codes := imp.codes ++ chunk }
   | .leaky cats =>
